@@ -5,6 +5,7 @@ package props
 // family is asserted depends on the property the run is for.
 
 import (
+	"context"
 	"fmt"
 	"github.com/vipnode/vipnode/v2/ethnode"
 	"math/big"
@@ -305,7 +306,21 @@ func (b *billing) doUpdate(i int, reported []string, steerDelta *int) {
 	}
 	seq0 := nextSeq()
 	e := s.model.update(id, reported, block)
+	gone := false
+	if steerDelta != nil && !viaRPC && b.prop == "C03" && rapid.IntRange(0, 2).Draw(rt, "requesterGone") == 0 {
+		// the client has hung up by the time the pool works on its keep-alive (an HTTP client that timed out): the
+		// request's context has ended. The keep-alive is billed and judged all the same, and a client that falls below
+		// the minimum is cut off - the hosts are told, whether or not anybody waits for the answer.
+		ctx, cancel := context.WithCancel(context.Background())
+		cancel()
+		s.nextUpdateCtx = ctx
+		gone = true
+		b.classes["requester-gone"] = true
+	}
 	resp, err := s.update(i, reported, block, enodeForm, viaRPC)
+	if gone {
+		time.Sleep(10 * time.Second) // (virtual) - the instructions written to the hosts are handled, slow hosts included
+	}
 	ec := classifyErr(err)
 	b.logf("update %s reports %v (enodeForm=%v rpc=%v) elapsed=%s -> err=%v; model: active=%v invalid=%v perPeer=%s charge=%s after=%s cutoff=%s",
 		nodeName(id), names(reported), enodeForm, viaRPC, e.Elapsed, err, names(e.Active), names(e.Invalid), e.PerPeer, e.Charge, e.After, e.Cutoff)
